@@ -20,6 +20,36 @@ Definition c01_key (c : cfg) (b spare : bytes) : string :=
                 || negb (String.eqb (show_parse_full c s) (show_parse_full c (of_bytes b))) in
   if unsafe then match known_C01 b with Some k => k | None => "c01-unrecorded" end else "-".
 
+(* one token k:HEX of a pp history: (carries the pending identifier?, frame) *)
+Definition pp_tok (t : string) : option (bool * bytes) :=
+  match t with
+  | String k (String ":"%char h) =>
+      match bytes_of_tok h with
+      | Some b => Some (Ascii.eqb k "m"%char, b)
+      | None => None
+      end
+  | _ => None
+  end.
+
+Definition pp_cfg : cfg := mkCfg [0;85;85;85;85;85] [0;102;102;102;102;102] [192;168;0;0] 24 current_fixes.
+
+Fixpoint pp_run (toks : list string) (acc : list string) (woken : bool) : option string :=
+  match toks with
+  | [] => Some (join " " (rev ((if woken then "ping:ok" else "ping:timeout") :: acc)))
+  | t :: r =>
+      match pp_tok t with
+      | None => None
+      | Some (m, b) =>
+          match parse pp_cfg (of_bytes b) with
+          | Ok f => pp_run r ("ok" :: acc) (woken || (m && match f_echo f with Some _ => true | None => false end))
+          | Err e => pp_run r (show_errclass e :: acc) woken
+          | Panic => pp_run r ("panic" :: acc) woken
+          | Fuel => pp_run r ("fuel" :: acc) woken
+          end
+      end
+  end.
+Definition pp_line (toks : list string) : option string := pp_run toks [] false.
+
 Definition dispatch (kind : string) (args : list string) : string :=
   if String.eqb kind "p" then
     match args with
@@ -35,6 +65,19 @@ Definition dispatch (kind : string) (args : list string) : string :=
     (* m Frame: the exported methods and fields of packet.Frame the accessor theorems cover *)
     match args with
     | [_] => out3 frame_api "-" "-"
+    | _ => BADARGS
+    end
+  else if String.eqb kind "pp" then
+    (* pp FAM MS tok...: frames fed through Parse while a ping is pending.  Model: the pure result class of every
+       frame (Parse never panics and never blocks, whatever the waiter table holds: C01_parse_no_panic covers the pure
+       part, the waiter table is C19's model) and ping:ok iff some frame carrying the pending identifier (m:) has
+       f_echo <> None.  The spec column states the expectation explicitly. *)
+    match args with
+    | _fam :: _ms :: toks =>
+        match pp_line toks with
+        | Some l => out3 l l "-"
+        | None => BADARGS
+        end
     | _ => BADARGS
     end
   else BADARGS.
